@@ -1,12 +1,15 @@
 BASELINE_OFF = "cd /repo && for m in . tests/fieldmask tests/unknown_fields; do (cd $m && GOFLAGS=-mod=mod GOPROXY=off GOSUMDB=off go test -json -vet=off -count=1 -timeout 25m ./...); done"
-HOOK_COMMITS = []
+HOOK_COMMITS = ["1fe0d6a"]
 NOTES = ("Every check rebuilds its Coq cone (make) and its Go harness against /repo's working tree, runs the real code on generated "
          "inputs, and evaluates model + property oracles inside coqc. Properties not yet claimed are listed under not_applicable with "
          "reason 'not built yet' only while the framework is growing; see DESIGN.md section 8 (status).")
 
 import json, os, glob
 _here = os.path.dirname(os.path.abspath(__file__))
-CHECKS = [json.load(open(p)) for p in sorted(glob.glob(os.path.join(_here, "manifest", "C*.json")))]
+# a property is claimed only once the coordinator has accepted its check (lib/manifest/ACCEPTED)
+_accepted = set(open(os.path.join(_here, "manifest", "ACCEPTED")).read().split())
+CHECKS = [json.load(open(p)) for p in sorted(glob.glob(os.path.join(_here, "manifest", "C*.json")))
+          if os.path.basename(p)[:-5] in _accepted]
 
 _NOT_BUILT = "not built yet in this round (framework growing); planned per DESIGN.md section 3"
 _NA_REASONS = {}
